@@ -131,7 +131,7 @@ pub fn spec(id: &str, tier: Tier) -> Option<Spec> {
             id: "C13",
             rule: "robust-domain operand pairs; fill_queue and subdivide are called directly for all 4 operations. Queue filling: 2 events per non-degenerate edge, mutual links, one left flag per pair, left first, each pair an edge of its operand, bounding boxes bitwise equal to the min/max over the operand's edge endpoints. Subdivision: links, left-before-right, non-zero length; planarity of all pairs of fully processed sub-segments by exact predicates (coincident twins must belong to different operands); every sub-segment on an edge of its operand; for complete sweeps (union, xor, and intersection/difference without early stop) the sub-segments on every input edge chain bitwise from one endpoint to the other and account for all sub-segments. Non-trivial: at least one division happened (more sub-segments than input edges).",
             design_ref: "§5 C13",
-            families: pair_families(tier, 96_000, 4_800_000, false, false),
+            families: pair_families(tier, 96_000, 4_800_000, true, false),
             spaces: match tier {
                 Tier::Quick => vec![rect_pair_space("all bitmap pairs on the 2x2 unit grid", 2, 2)],
                 Tier::Thorough => vec![rect_pair_space("all bitmap pairs on the 3x2 unit grid", 3, 2)],
@@ -144,7 +144,7 @@ pub fn spec(id: &str, tier: Tier) -> Option<Spec> {
             id: "C14",
             rule: "robust-domain operand pairs, all 4 operations, every processed left event (sub-segment): side points just below/above its midpoint (vertical: right/left), shrunk until the probe is clear of all other sub-segments and input edges (otherwise skipped and counted); exact even-odd membership of the side points in the input operands decides in_out, other_in_out, edge type, in_result and the transition direction (for coincident twins: exactly one carries the boundary, with the direction of the combined change); prev_in_result must be a processed, earlier, non-vertical left event in the result, and for result edges `region below is inside the result` must equal `recorded lower result edge exists and is OutIn`. Non-trivial: the case has a twin pair or a vertical sub-segment with a same-operand contact, and a sub-segment in the result.",
             design_ref: "§5 C14",
-            families: pair_families(tier, 96_000, 4_800_000, false, false),
+            families: pair_families(tier, 96_000, 4_800_000, true, false),
             spaces: match tier {
                 Tier::Quick => vec![rect_pair_space("all bitmap pairs on the 2x2 unit grid", 2, 2), rect_pair_space("all bitmap pairs on the 3x2 unit grid", 3, 2)],
                 Tier::Thorough => vec![rect_pair_space("all bitmap pairs on the 3x2 unit grid", 3, 2), rect_pair_space("all bitmap pairs on the 3x3 unit grid", 3, 3)],
@@ -167,7 +167,7 @@ pub fn spec(id: &str, tier: Tier) -> Option<Spec> {
             id: "C06",
             rule: "robust-domain operand pairs (no self-crossing rings). Swap: ring multisets of op(A,B) and op(B,A) for intersection/union/xor (bitwise on exact families; region fallback on inexact ones). Self: A-A and A xor A empty, A∩A and A∪A equal A as regions, and as ring multisets when no two rings of A touch. Empty operand: nine identities, results bit-identical to the inputs. Disjoint boxes: B translated beyond A's box, results bit-identical combinations of the inputs. Touching boxes (exact families): B translated so that its leftmost vertex sits on A's rightmost vertex; region oracle for all operations and ring multisets when the contact is a single vertex and no rings touch otherwise. Non-trivial: operands share a boundary segment, or A is non-empty (self laws).",
             design_ref: "§5 C06",
-            families: pair_families(tier, 64_000, 3_200_000, false, false),
+            families: pair_families(tier, 64_000, 3_200_000, true, false),
             spaces: match tier {
                 Tier::Quick => vec![rect_pair_space("all bitmap pairs on the 2x2 unit grid", 2, 2)],
                 Tier::Thorough => vec![rect_pair_space("all bitmap pairs on the 3x2 unit grid", 3, 2)],
@@ -180,7 +180,7 @@ pub fn spec(id: &str, tier: Tier) -> Option<Spec> {
             id: "C07",
             rule: "robust-domain operand pairs; each operand is rewritten (every ring started at a random vertex, reversed independently, 0-2 vertices repeated consecutively, closing vertex possibly repeated, holes and parts rotated/reversed in order, zeros written as -0.0 in a quarter of the cases) and all 4 operations are run on both forms: exact families must give identical ring and polygon multisets, inexact families the same region (and the rewritten result must satisfy the membership oracle); when an operand is a single polygon all applicable trait implementations must return the identical MultiPolygon. Non-trivial: the rewriting changed the byte representation and the base case is C01-non-trivial.",
             design_ref: "§5 C07",
-            families: pair_families(tier, 64_000, 3_200_000, false, false),
+            families: pair_families(tier, 64_000, 3_200_000, true, false),
             spaces: vec![],
             check: Box::new(|c, o| laws::c07(c, o, Prec::F64)),
             assumptions,
@@ -190,7 +190,7 @@ pub fn spec(id: &str, tier: Tier) -> Option<Spec> {
             id: "C08",
             rule: "robust-domain operand pairs, per case: one scaling of both operands by 2^k (k in [-40,40], no overflow/underflow) compared bit for bit with the scaled result for all 4 operations; one integer translation (|t| <= 1e6) on the integer-lattice families compared bit for bit; three of the seven non-identity axis symmetries, for which the result of the transformed operands must satisfy the membership oracle and equal the transformed result as a region. Non-trivial: base case C01-non-trivial and some result non-empty.",
             design_ref: "§5 C08",
-            families: pair_families(tier, 48_000, 2_400_000, false, false),
+            families: pair_families(tier, 48_000, 2_400_000, true, false),
             spaces: vec![],
             check: Box::new(|c, o| laws::c08(c, o, Prec::F64)),
             assumptions,
@@ -198,9 +198,9 @@ pub fn spec(id: &str, tier: Tier) -> Option<Spec> {
         },
         "C09" => Spec {
             id: "C09",
-            rule: "robust-domain operand pairs, per case: (1) a rectangle 4096 magnitudes away to the left/right/above/below added to A or to B: ring multiset of the result = ring multiset of the base result plus the part exactly when it contributes (union, xor, subject part under difference); (2) far parts added on the same side of both operands (always to the right, so that intersection/difference cannot stop early, and in one more direction), which moves every bound derived from the operands' boxes; (3) the same near geometry through the bounding-box shortcut (B moved away) and through the sweep (a tall far part on A re-overlaps the boxes). Ring multisets compared bitwise; where the shortcut hands back rings of operands whose rings touch each other, regions are compared instead. Non-trivial: base case C01-non-trivial and the extra part changes the sweep's right bound, lies to the left, or flips the box test.",
+            rule: "robust-domain operand pairs, per case: (1) a rectangle 4096 magnitudes away to the left/right/above/below added to A or to B: ring multiset of the result = ring multiset of the base result plus the part exactly when it contributes (union, xor, subject part under difference); (2) far parts added on the same side of both operands (to the right, so that intersection/difference cannot stop early, and above, left and below), which moves every bound derived from the operands' boxes; (3) the same near geometry through the bounding-box shortcut (B moved away) and through the sweep (a tall far part on A re-overlaps the boxes). Ring multisets compared bitwise; where the shortcut hands back rings of operands whose rings touch each other, and for self-crossing rings (read by the even-odd rule), regions are compared instead. Non-trivial: base case C01-non-trivial and the extra part changes the sweep's right bound, lies to the left, or flips the box test.",
             design_ref: "§5 C09",
-            families: pair_families(tier, 128_000, 3_200_000, false, false),
+            families: pair_families(tier, 128_000, 3_200_000, true, false),
             spaces: vec![],
             check: Box::new(|c, o| laws::c09(c, o, Prec::F64)),
             assumptions,
